@@ -78,8 +78,14 @@ Record sstate := mkS {
 Definition upd {A} (f : nat -> A) (i : nat) (v : A) : nat -> A :=
   fun k => if Nat.eqb k i then v else f k.
 
-(* `for peer in list(self.connections.values()): if peer != writer` for n connections 0..n-1 *)
+(* `for peer in list(self.connections.values()): if peer != writer` for n connections 0..n-1
+   (see live_peers: connections whose handler has ended are no longer in the dict) *)
 Definition peers (n i : nat) : list nat := filter (fun j => negb (Nat.eqb j i)) (seq 0 n).
+
+Definition is_closed (p : pc) : bool := match p with Closed => true | _ => false end.
+(* a handler that has ended has removed its writer from self.connections *)
+Definition live_peers (n : nat) (pcs : nat -> pc) (i : nat) : list nat :=
+  filter (fun j => negb (is_closed (pcs j))) (peers n i).
 
 Inductive label :=
 | Arrive (i : nat) (chunk : bytes)   (* the transport delivers a piece of i's stream *)
@@ -102,7 +108,7 @@ Definition step (n : nat) (st : sstate) (l : label) : sstate :=
           if IDLEN <=? length (s_buf st i) then
             let u := firstn IDLEN (s_buf st i) in
             mkS (upd (s_buf st) i (skipn IDLEN (s_buf st i))) (s_eof st)
-                (upd (s_pc st) i (Forwarding u (peers n i)))
+                (upd (s_pc st) i (Forwarding u (live_peers n (s_pc st) i)))
                 (upd (s_taken st) i (s_taken st i ++ [u])) (s_arr st) (s_out st)
           else if s_eof st i then
             (* IncompleteReadError: partial id dropped, handler ends *)
